@@ -189,6 +189,8 @@ func enumTable(fn *ssa.Function, caseField, targetField string) (tab map[string]
 		conds []Cond
 	}
 	var leaves []leaf
+	var pendingDefaults []leaf // constants stored unconditionally (a pre-set default of the comma-ok table form)
+	tableDefaults := map[string]bool{}
 	var expand func(v ssa.Value, conds []Cond, d int)
 	seen := map[*ssa.Phi]bool{}
 	expand = func(v ssa.Value, conds []Cond, d int) {
@@ -238,7 +240,49 @@ func enumTable(fn *ssa.Function, caseField, targetField string) (tab map[string]
 				}
 			}
 		}
+		// the same table consulted with the comma-ok form: "field = default; if v, ok := table[x.caseField]; ok
+		// { field = v }" - this store stands under the found result; the default is the constant stored to the
+		// field unconditionally before it
+		if ex, isEx := stripConvVal(st.Val).(*ssa.Extract); isEx && ex.Index == 0 {
+			if lk, isLk := ex.Tuple.(*ssa.Lookup); isLk && lk.CommaOk && strings.HasSuffix(pathOf(lk.Index), "."+caseField) {
+				found := false
+				for _, f := range factsAt(st.Block()) {
+					if f.Op == token.ILLEGAL && f.True {
+						if e2, ok := f.V.(*ssa.Extract); ok && e2.Tuple == ssa.Value(lk) && e2.Index == 1 {
+							found = true
+						}
+					}
+				}
+				if ld, isLd := lk.X.(*ssa.UnOp); isLd && ld.Op == token.MUL && found {
+					if g, isG := ld.X.(*ssa.Global); isG && theWorld != nil {
+						if entries, okT := globalMapLiteral(theWorld, g); okT {
+							for k, v := range entries {
+								tab[k] = v
+							}
+							// the default: a constant stored to the same field on every path before the lookup
+							for _, st0 := range storesIn(fn) {
+								_, f0, _, ok0 := fieldRef(st0.Addr)
+								if ok0 && f0 == targetField && st0 != st && instrDominates(st0, lk) {
+									if k0, isC := stripConvVal(st0.Val).(*ssa.Const); isC {
+										deflt, hasDefault = constName(k0), true
+									}
+								}
+							}
+							tableDefaults[targetField] = true
+							continue
+						}
+					}
+				}
+			}
+		}
+		if k0, isC := stripConvVal(st.Val).(*ssa.Const); isC && len(condsFor(st.Block())) == 0 {
+			pendingDefaults = append(pendingDefaults, leaf{k0, nil})
+			continue
+		}
 		expand(st.Val, condsFor(st.Block()), 0)
+	}
+	if !tableDefaults[targetField] {
+		leaves = append(leaves, pendingDefaults...)
 	}
 	for _, lf := range leaves {
 		stored := constName(lf.k)
